@@ -263,9 +263,49 @@ def m_reorder_pdvs(r, raw):
     return R.build_pdu({'type': 4, 'rsv': 0, 'pdvs': pdvs})
 
 
+@mutator
+def m_long_digit_uid(r, raw):
+    """A UID made of a long run of digits followed by a byte that is no UID character (UUID-derived
+    UIDs are 39 digits long; peers pad with NUL): cheap to reject, unless validation backtracks."""
+    if not raw or raw[0] not in (1, 2):
+        return m_bitflips(r, raw)
+    heads = [h for h, depth, itype in item_headers(raw) if itype in (0x30, 0x40, 0x10)]
+    if not heads:
+        return raw
+    pos = r.choice(heads)
+    old_len = struct.unpack('>H', raw[pos + 2:pos + 4])[0]
+    digits = ''.join(r.choice('0123456789') for _ in range(r.choice([30, 38, 45, 58])))
+    value = ('2.25.' + digits).encode()[:63] + r.choice([b'\0', b' ', b'x', b'.'])
+    item = raw[pos:pos + 2] + struct.pack('>H', len(value)) + value
+    out = raw[:pos] + item + raw[pos + 4 + old_len:]
+    # enclosing presentation-context item length and outer length follow the change
+    delta = len(value) - old_len
+    for h, depth, itype in item_headers(raw):
+        if itype in (0x20, 0x21) and h < pos <= h + 4 + struct.unpack('>H', raw[h + 2:h + 4])[0]:
+            n = struct.unpack('>H', out[h + 2:h + 4])[0] + delta
+            out = out[:h + 2] + struct.pack('>H', n & 0xFFFF) + out[h + 4:]
+    return fix_outer(out)
+
+
+def message_in_progress(r):
+    """Valid leading PDUs of a C-STORE (command set complete, perhaps some of the data), then a
+    mutated P-DATA-TF where its next fragment should be."""
+    cmd = F.store_rq_command(r.randrange(1, 65536))
+    data = bytes(r.getrandbits(8) for _ in range(r.choice([60, 200])))
+    pdvs = R.fragment(cmd, data, r.choice([0, 64]), 3)
+    ncmd = sum(1 for p in pdvs if p['data'][0] & 1)
+    keep = r.randrange(ncmd, len(pdvs))                  # all of the command set, 0+ data fragments
+    frames = [R.build_pdu({'type': 4, 'rsv': 0, 'pdvs': [p]}) for p in pdvs[:keep]]
+    nxt = R.build_pdu({'type': 4, 'rsv': 0, 'pdvs': pdvs[keep:keep + 1]})
+    frames.append(m_pdv(r, nxt))
+    return 'store-in-progress/pdv', frames
+
+
 def mutant_stream(r):
     """-> (label, [frames]) ; frames are the byte strings that make up the
     stream (each a mutated or valid PDU), kept separate for per-frame delivery."""
+    if r.random() < 0.1:
+        return message_in_progress(r)
     n = r.choice([1, 1, 1, 2, 3])
     frames = []
     labels = []
